@@ -4,5 +4,5 @@ set -u
 d=$(realpath "$1"); shift
 git -C /repo apply "$d" || { echo "APPLY FAILED $d"; exit 3; }
 trap 'git -C /repo checkout -- . ' EXIT
-/verif/check "$@"
+VERIF_EVIDENCE_DIR=/dev/shm/verif-mutant-evidence /verif/check "$@"
 echo "exit=$?"
